@@ -66,6 +66,15 @@ def xf_case(draw):
         xf["R"] = np.asarray(R).tolist()
     elif kind == "pattern-motion":
         R, pcls = draw(gen_geom.pose(base["ppos"], classes=["axis", "axis", "flip", "random", "random", "near-parallel", "near-antiparallel"]))
+        inside = [c for c in base["meta"]["copies"] if c["crossings"] == 0]
+        if inside and len(base["ppos"]) >= 2 and draw(hperm.integers(0, 2)) == 0:
+            # the pattern as cut out of the structure itself: oriented like one of the occurrences, exactly or up to a tilt of
+            # at most a third of a degree
+            c = inside[draw(hperm.integers(0, len(inside) - 1))]
+            Rc = geom.kabsch(np.array(base["ppos"]), np.array([base["spos"][i] for i in c["idx"]]))[0]
+            tilt = draw(st.sampled_from([0.0, 0.0, 1e-7, 1e-4, 1e-3, 2e-3, 3e-3, 4e-3, 5e-3]))
+            R = (geom.axis_angle_matrix(draw(gen_geom.unit_vector()), tilt) if tilt else np.eye(3)) @ Rc
+            pcls = "as-cut-from-structure" if tilt == 0 else "tilted-from-an-occurrence"
         xf["R"] = np.asarray(R).tolist()
         xf["pose"] = pcls
         xf["t"] = [draw(st.floats(-10, 10)) for _ in range(3)]
